@@ -8,6 +8,7 @@ import (
 	"github.com/pentops/j5/gen/j5/list/v1/list_j5pb"
 	"github.com/pentops/j5/gen/j5/messaging/v1/messaging_j5pb"
 	"github.com/pentops/j5/gen/j5/schema/v1/schema_j5pb"
+	"github.com/pentops/j5/gen/j5/source/v1/source_j5pb"
 	"github.com/pentops/j5/gen/j5/sourcedef/v1/sourcedef_j5pb"
 	"github.com/pentops/j5/internal/bcl/errpos"
 	"github.com/pentops/j5/lib/j5schema"
@@ -1903,7 +1904,16 @@ func verifRecordDraws() {
 }
 func verifReplayDraws() { verifDraws.replay, verifDraws.pos = true, 0 }
 
+// verifFixedDraws: 0 = symbolic draws, 1 = every optional part absent, 2 = every optional part present
+var verifFixedDraws int
+
 func verifDrawBool(name string) bool {
+	if verifFixedDraws == 1 {
+		return false
+	}
+	if verifFixedDraws == 2 {
+		return true
+	}
 	if verifDraws.replay {
 		v := verifDraws.bools[0]
 		verifDraws.bools = verifDraws.bools[1:]
@@ -1914,6 +1924,9 @@ func verifDrawBool(name string) bool {
 	return v
 }
 func verifDrawU64(name string) uint64 {
+	if verifFixedDraws != 0 {
+		return 3
+	}
 	if verifDraws.replay {
 		v := verifDraws.u64s[0]
 		verifDraws.u64s = verifDraws.u64s[1:]
@@ -1924,6 +1937,9 @@ func verifDrawU64(name string) uint64 {
 	return v
 }
 func verifDrawI64(name string) int64 {
+	if verifFixedDraws != 0 {
+		return 7
+	}
 	if verifDraws.replay {
 		v := verifDraws.i64s[0]
 		verifDraws.i64s = verifDraws.i64s[1:]
@@ -1934,6 +1950,12 @@ func verifDrawI64(name string) int64 {
 	return v
 }
 func verifDrawChoice(name string, n int) int {
+	if verifFixedDraws == 1 {
+		return 0
+	}
+	if verifFixedDraws == 2 {
+		return n - 1
+	}
 	if verifDraws.replay {
 		v := verifDraws.ints[0]
 		verifDraws.ints = verifDraws.ints[1:]
@@ -1960,4 +1982,111 @@ func verifDrawU64Ptr(name string) *uint64 {
 		return &v
 	}
 	return nil
+}
+
+// ---------- C15: schema sets survive export to the source-API form and re-import ----------
+
+func verifExportAll(pkgs map[string]*j5schema.Package) []*source_j5pb.Package {
+	// deterministic order for the harness: the fixed package names it uses
+	out := []*source_j5pb.Package{}
+	for _, name := range []string{"a.v1", "other.v1"} {
+		pkg, ok := pkgs[name]
+		if !ok {
+			continue
+		}
+		sp := &source_j5pb.Package{Name: name, Schemas: map[string]*schema_j5pb.RootSchema{}}
+		for sname, ref := range pkg.Schemas {
+			if ref.To == nil {
+				verifFail("unlinked-ref-after-reflection")
+			}
+			sp.Schemas[sname] = ref.To.ToJ5Root()
+		}
+		out = append(out, sp)
+	}
+	return out
+}
+
+func HarnessExportImport() {
+	kind := ndChoice("kind", fKinds)
+	if only := verifParam("kind", -1); only >= 0 && only != kind {
+		return
+	}
+	tag := ":" + verifFieldName[kind]
+	card := ndChoice("cardinality", 3)
+	verifNoFlatten = card != 0
+	verifFixedDraws = verifParam("draws", 0)
+	if verifFixedDraws != 0 {
+		verifFixedDraws = 1 + ndChoice("optionalParts", 2)
+	}
+	verifRecordDraws()
+	f := verifRuled(kind)
+	switch card {
+	case 1:
+		arr := &schema_j5pb.ArrayField{Items: f}
+		if verifDrawBool("arrayRules") {
+			arr.Rules = &schema_j5pb.ArrayField_Rules{MinItems: verifDrawU64Ptr("minItems"), UniqueItems: verifDrawBoolPtr("unique")}
+		}
+		f = &schema_j5pb.Field{Type: &schema_j5pb.Field_Array{Array: arr}}
+	case 2:
+		f = &schema_j5pb.Field{Type: &schema_j5pb.Field_Map{Map: &schema_j5pb.MapField{ItemSchema: f}}}
+	}
+	withInfo := ndBool("enumInfo")
+	enum := &schema_j5pb.Enum{Name: "Kind", Description: "the kinds", Options: []*schema_j5pb.Enum_Option{{Name: "ONE", Description: "first"}, {Name: "TWO"}}}
+	if withInfo {
+		enum.Info = []*schema_j5pb.Enum_OptionInfoField{{Name: "colour", Label: "Colour", Description: "of it"}}
+		enum.Options[0].Info = map[string]string{"colour": "red"}
+	}
+	thing := &schema_j5pb.Object{Name: "Thing", Description: "a thing", Properties: []*schema_j5pb.ObjectProperty{
+		{Name: "theField", Schema: f, Required: ndBool("required"), Description: "the field"},
+		{Name: "kind", Schema: &schema_j5pb.Field{Type: &schema_j5pb.Field_Enum{Enum: &schema_j5pb.EnumField{Schema: &schema_j5pb.EnumField_Ref{Ref: &schema_j5pb.Ref{Schema: "Kind"}},
+			ListRules: &list_j5pb.EnumRules{Filtering: &list_j5pb.FilteringConstraint{Filterable: true}}}}}},
+		{Name: "self", Schema: &schema_j5pb.Field{Type: &schema_j5pb.Field_Array{Array: &schema_j5pb.ArrayField{Items: &schema_j5pb.Field{Type: &schema_j5pb.Field_Object{Object: &schema_j5pb.ObjectField{
+			Schema: &schema_j5pb.ObjectField_Ref{Ref: &schema_j5pb.Ref{Schema: "Thing"}}}}}}}}},
+	}}
+	if ndBool("entity") {
+		thing.Entity = &schema_j5pb.EntityObject{Entity: "thing", Part: schema_j5pb.EntityPart_DATA}
+	}
+	if ndBool("anyMember") {
+		thing.AnyMember = []string{"things"}
+	}
+	src := verifSourceFile(
+		&sourcedef_j5pb.RootElement{Type: &sourcedef_j5pb.RootElement_Object{Object: &sourcedef_j5pb.Object{Def: thing}}},
+		&sourcedef_j5pb.RootElement{Type: &sourcedef_j5pb.RootElement_Enum{Enum: enum}},
+	)
+	verifFixedDraws = 0
+	files, err := verifCompile(src)
+	if err != nil {
+		verifReach("not-compilable" + tag)
+		return
+	}
+	u := verifUniverse(files)
+	cache := j5schema.NewSchemaCache()
+	if _, rerr := cache.Schema(u.Message("a.v1.Thing")); rerr != nil {
+		verifReach("not-reflectable" + tag)
+		return
+	}
+	// X := export(reflect(descriptors))
+	x := verifExportAll(j5schema.VerifCachePackages(cache))
+	// import
+	set, ierr := j5schema.PackageSetFromSourceAPI(x)
+	verifAssert(ierr == nil, "import-succeeds-with-every-ref-resolved"+tag)
+	if ierr != nil {
+		return
+	}
+	// export again and compare, schema by schema
+	for _, sp := range x {
+		pkg := set.Packages[sp.Name]
+		verifAssert(pkg != nil && len(pkg.Schemas) == len(sp.Schemas), "same-schemas-per-package")
+		if pkg == nil {
+			continue
+		}
+		for name, want := range sp.Schemas {
+			ref := pkg.Schemas[name]
+			verifAssert(ref != nil && ref.To != nil, "schema-present-and-linked")
+			if ref == nil || ref.To == nil {
+				continue
+			}
+			verifAssertDeepEqual(ref.To.ToJ5Root(), want, "export-of-import-equals-export:"+name+tag)
+		}
+	}
 }
